@@ -19,7 +19,11 @@ ASSUMPTIONS = [
 ]
 TRUSTED = ["tools/cxx2lean_eff.py (stage 2, DESIGN.md 0.7.1): world boundary (DoPoll, Interrupted, Clock::now, ::send, ::recv, SocketError opaque; handles dropped), C++ evaluation order, pointer = offset, string_view = (offset, length), objects = fields; Model/GenWorld.lean reads the model answers as C results",
            "tools/cxx2lean.py (source-derived tie, DESIGN.md 0.7): clang-14 JSON AST, chrono unit semantics read from the desugared types, unbounded Int for signed arithmetic (overflow = UB), abstract memcmp / container queries",
-           "vos shim (send/recv/poll interposition, virtual clock)", "FNV-1a hashes stand in for byte-wise comparison of large payloads"]
+           "vos shim (send/recv/poll interposition, virtual clock)", "FNV-1a hashes stand in for byte-wise comparison of large payloads",
+           "the transcript parser of Drive/C01.lean (lines -> typed observations Spec.C01.Obs); the predicate itself is Spec/C01.lean and is "
+           "no longer trusted to be consistent with the model: spec_holds_on_model proves that it accepts every trace of the model. What stays "
+           "trusted about it: that its clauses say what the property text says, and the environment Spec.C01.Sys used for the model's traces "
+           "(A-TCP: FIFO byte queue per direction, recv = non-empty prefix, EOF only when drained and closed; A-UDP: oldest datagram first)"]
 ALL_TAGS = ["send.all", "send.try", "send.some", "short-write", "send.throw", "eintr", "recv.value", "recv.none",
             "recv.throw", "psend", "pclose", "pshutwr", "sync", "recv.unl", "recv.zero", "recv.lim", "sendto", "recvfrom"]
 EXHAUSTIVE = {}
@@ -40,13 +44,25 @@ def gen(rng, tier):
     return cases
 
 
-TECHNIQUE = "Lean 4 theorems (induction over every OS answer script) + trace validation of the real send/receive loops against the model"
+TECHNIQUE = ("Lean 4 theorems (induction over every OS answer script) + trace validation of the real send/receive loops against the model; "
+             "the run-time predicate is its own Lean module (Spec/C01.lean) proved to accept every trace of the model (simulation relation, "
+             "induction over the history)")
 LEVEL_TEXT = ("Machine-checked theorems about an executable model of Wait/SendNow/SendAll/SendTry/SendSome/Send dispatch/ReceiveNow/"
               "Receive: unlimited Send returns size and hands exactly the caller's bytes to the OS; every Send returns exactly the number "
               "of leading bytes handed over (all timeout modes, every short-write/EINTR/failure pattern); a sequence of Sends puts the "
               "concatenation of those prefixes on the wire; Receive reports 1..size bytes, never 0; composed with the FIFO assumption: "
               "delivered ++ in-flight = pushed for every interleaving, closure reported only when nothing is in flight. Tied to /repo by "
               "trace validation: every poll/send/recv the real code issues on the socket (with real short writes on loopback) is fed to the "
-              "model, which must issue the same calls and return the same result; the peer's byte stream is compared with the accounting.")
+              "model, which must issue the same calls and return the same result; the peer's byte stream is compared with the accounting. "
+              "The run-time property predicate is a typed, total Lean function of its own module (Spec/C01.lean: Obs = one operation with its "
+              "intercepted system calls and result, specStep, specRun; Drive/C01.lean only parses lines into Obs and calls it) and is itself a "
+              "theorem of the model: spec_holds_on_model (= Spec.C01.model_satisfies_spec) proves for every history of any length - Send / "
+              "Receive / SendTo / ReceiveFrom / Listen with arbitrary payloads, sizes, timeouts and arbitrary scripted poll/send answers "
+              "(short writes, zero answers, failures, EINTR, time-outs), interleaved with the peer's sends, close, half close, reset, datagrams - "
+              "that every clause accepts the model's own observations (send count = bytes the OS accepted, = size when unlimited, <= size; no "
+              "exception without a failed system call; signals invisible; peer stream = accounted bytes; Receive 1..size bytes that are the next "
+              "bytes of the stream; closure only when drained and closed; SendTo all-or-nothing; datagram payloads; MSG_NOSIGNAL). Domain "
+              "(histOk): receive size >= 1, no kernel time-out of an unlimited poll in SendTo, one datagram in flight to the raw peer at a time. "
+              "So a spec verdict on the implementation is provably a difference between implementation and model, never a stricter oracle.")
 LEVEL_NOTE = ("Trusted: Lean kernel; axioms propext/Quot.sound/Classical.choice; the model (validated on generated cases only); vos shim; "
               "kernel TCP is an assumption (Chan), exercised but not proved. TLS half of C01 is checked through C18.")
